@@ -75,3 +75,29 @@ M.contract('xtuml.consistency_check.check_uniqueness_constraint@null-values-loop
            ensures={'counts-null-identifying-values': 'res == old(res) + null_prefix(metaclass, inst, len(metaclass.attributes))'},
            modifies=[], ghost={'fragment': {'loop': 3}},
            loops={3: Loop(inv={'count-so-far': 'res == old(res) + null_prefix(metaclass, inst, _i)', 'iterates': '_seq == metaclass.attributes'})})
+
+# ---- subtype integrity: one violation per supertype instance without a subtype instance across the association
+#      (navigate_subtype is abstract here: `subtype_across(inst, rel)` is the instance it finds, None when there is none;
+#       its own loop over the links of the supertype is decided by the bounded tier, c11 item subtypes)
+M.uninterpreted('subtype_across', [INST, VAL], INST)
+M.contract('xtuml.meta.navigate_subtype', [('supertype', INST), ('rel_id', VAL)], returns=INST, trusted=True,
+           reason='abstract: the subtype instance reached across the association, or None (bounded tier: c11 item subtypes, c09 item navigate); '
+                  'the association number is normalised the same way (an integer n means "Rn")',
+           ensures={'the-subtype-or-none': 'result is subtype_across(supertype, norm_rel(rel_id))'}, modifies=[])
+M.spec('''
+def lacks_subtype(inst, rel):
+    return subtype_across(inst, rel) is None
+
+def orphan_prefix(insts, rel, k):
+    return 0 if k <= 0 else orphan_prefix(insts, rel, k - 1) + (1 if lacks_subtype(insts[k - 1], rel) else 0)
+''', sorts={'orphan_prefix': ([SeqT(INST), VAL, INT], INT, [])})
+M.contract('xtuml.consistency_check.check_subtype_integrity', [('m', MM), ('super_kind', STR), ('rel_id', VAL)], returns=INT,
+           requires={'model': 'm is not None and upper(super_kind) in m.metaclasses and m.metaclasses[upper(super_kind)] is not None',
+                     'rel-id-shape': 'is_int(rel_id) or is_str(rel_id)',
+                     'instances': 'all(x is not None for x in m.metaclasses[upper(super_kind)].storage)'},
+           ensures={'counts-supertype-instances-without-subtype':
+                    'result == orphan_prefix(m.metaclasses[upper(super_kind)].storage, norm_rel(rel_id), len(m.metaclasses[upper(super_kind)].storage))'},
+           modifies=[],
+           loops={0: Loop(inv={'count-so-far': '_returned == orphan_prefix(_seq, norm_rel(old(rel_id)), _i)',
+                               'rel-normalised': 'rel_id == norm_rel(old(rel_id))',
+                               'iterates-pool': '_seq == m.metaclasses[upper(super_kind)].storage'})})
